@@ -717,6 +717,10 @@ fn spawn_reader(
                 Ok((a, b))
             });
             pause_attach(None);
+            // let go of the server BEFORE reporting: the controller may replace the database
+            // file as soon as it has the result
+            drop(rt);
+            drop(srv);
             let _ = tx.send(res);
         });
     rx
@@ -749,6 +753,8 @@ fn spawn_writer(
                 w.commit().map_err(|e| format!("commit: {e:?}"))
             });
             pause_attach(None);
+            drop(rt);
+            drop(srv);
             let _ = tx.send(res);
         });
     rx
@@ -758,6 +764,23 @@ fn whole_read(srv: &Arc<Srv>, cands: &[u32], with_schema: bool) -> Result<Passes
     spawn_reader(srv.clone(), None, cands.to_vec(), with_schema)
         .recv_timeout(FINISH_TIMEOUT)
         .map_err(|_| "reader did not finish".to_string())?
+}
+
+/// Drop a server handle and wait until every other thread has let go of it, so that its
+/// database file may be replaced. False if some (stuck) thread still holds it.
+fn release_server(srv: &mut Option<Arc<Srv>>) -> bool {
+    match srv.take() {
+        None => true,
+        Some(s) => {
+            let t0 = std::time::Instant::now();
+            while Arc::strong_count(&s) > 1 && t0.elapsed() < StdDuration::from_secs(20) {
+                std::thread::sleep(StdDuration::from_millis(2));
+            }
+            let sole = Arc::strong_count(&s) == 1;
+            drop(s);
+            sole
+        }
+    }
 }
 
 enum ScenarioEnd {
@@ -1103,7 +1126,22 @@ pub fn run(args: Args) {
     let tier = args.tier;
     let sc = Scratch::new("c06");
     let dir = sc.path().to_path_buf();
-    let cfg_ids: Vec<usize> = tier.pick(vec![0usize, 1], vec![0, 1, 2, 3]);
+    // --replay <file>: re-run exactly the configuration and schedule of a recorded witness
+    let replay: Option<Json> = args
+        .replay
+        .as_ref()
+        .and_then(|p| kvcore::run::load_replay(p))
+        .filter(|w| w["schedule"].is_string());
+    let replay_stress = replay
+        .as_ref()
+        .map(|w| w["schedule"].as_str().unwrap_or("").starts_with("un-forced"))
+        .unwrap_or(false);
+    let cfg_ids: Vec<usize> = match &replay {
+        Some(w) => (0..CONFIGS.len())
+            .filter(|i| json!(CONFIGS[*i].name) == w["config"])
+            .collect(),
+        None => tier.pick(vec![0usize, 1], vec![0, 1, 2, 3]),
+    };
     let mut pristine: BTreeMap<usize, PathBuf> = BTreeMap::new();
     for i in &cfg_ids {
         match build_pristine(&dir, &CONFIGS[*i], *i) {
@@ -1120,7 +1158,11 @@ pub fn run(args: Args) {
     let seen_sigs: Mutex<BTreeSet<String>> = Mutex::new(BTreeSet::new());
     let matrix: Mutex<BTreeMap<String, String>> = Mutex::new(BTreeMap::new());
     // jobs: (config, chunk of schedules)
-    let scheds = all_schedules();
+    let mut scheds = all_schedules();
+    if let Some(w) = &replay {
+        scheds.retain(|s| json!(s.label()) == w["schedule"]);
+        println!("replaying {} schedule(s) on {:?}: {}", scheds.len(), cfg_ids, w["schedule"]);
+    }
     run.extra("forced_schedules_per_configuration", json!(scheds.len()));
     let mut jobs: Vec<(usize, Vec<usize>)> = Vec::new();
     for ci in &cfg_ids {
@@ -1145,14 +1187,20 @@ pub fn run(args: Args) {
                     continue;
                 }
                 let cfg = &CONFIGS[*ci];
-                let file = dir.join(format!("f-{w}-{ji}.db"));
+                let mut generation = 0;
+                let mut file = dir.join(format!("f-{w}-{ji}-{generation}.db"));
                 let mut srv: Option<Arc<Srv>> = None;
                 let mut n: u32 = 0;
                 for si in idxs {
                     let sched = &scheds[*si];
                     // a fresh server when needed
                     if srv.is_none() || cfg.raise {
-                        srv = None;
+                        if !release_server(&mut srv) {
+                            // a stuck thread still has the old file open: leave it alone
+                            generation += 1;
+                            file = dir.join(format!("f-{w}-{ji}-{generation}.db"));
+                            acc.count("server_handle_still_held_by_a_thread");
+                        }
                         if let Err(e) = copy_db(&pristine[ci], &file) {
                             acc.inconclusive(&format!("copy: {e:?}"));
                             break;
@@ -1160,7 +1208,12 @@ pub fn run(args: Args) {
                         n = 0;
                     }
                     if srv.is_none() || cfg.cold {
-                        srv = None; // drop all handles before reopening
+                        // drop all handles before reopening
+                        if !release_server(&mut srv) {
+                            acc.count("server_handle_still_held_by_a_thread");
+                            acc.inconclusive("a thread still holds the server that should be reopened");
+                            break;
+                        }
                         match open_cfg(&file, cfg, secs(50)) {
                             Ok(s) => srv = Some(s),
                             Err(e) => {
@@ -1183,25 +1236,34 @@ pub fn run(args: Args) {
                             acc.count("unschedulable_pairs");
                             acc.observe("unschedulable", &format!("{}: {why}", sched.label()));
                             // the writer may or may not have committed; start over
-                            srv = None;
+                            drop(s);
+                            if !release_server(&mut srv) {
+                                generation += 1;
+                                file = dir.join(format!("f-{w}-{ji}-{generation}.db"));
+                            }
                         }
                         ScenarioEnd::Broken(why) => {
                             acc.count("scenario_broken");
                             acc.inconclusive(&format!("{} / {}: {why}", cfg.name, sched.label()));
-                            srv = None;
+                            drop(s);
+                            if !release_server(&mut srv) {
+                                generation += 1;
+                                file = dir.join(format!("f-{w}-{ji}-{generation}.db"));
+                            }
                         }
                     }
                 }
-                drop(srv);
-                for p in db_files(&file) {
-                    let _ = std::fs::remove_file(p);
+                if release_server(&mut srv) {
+                    for p in db_files(&file) {
+                        let _ = std::fs::remove_file(p);
+                    }
                 }
             }
             acc
         });
     }
     // stress
-    {
+    if (replay.is_none() || replay_stress) && pristine.contains_key(&1) {
         let ci = 1usize; // plain writer, tiny cache
         let cfg = CONFIGS[ci];
         let wall = StdDuration::from_secs(tier.pick(4, 60));
@@ -1238,7 +1300,11 @@ pub fn run(args: Args) {
         "forced_matrix (configuration | writer progress | reader point -> what the reader saw)",
         json!(matrix.lock().map(|m| m.clone()).unwrap_or_default()),
     );
-    // thresholds
+    // thresholds (a replay judges one schedule only)
+    if replay.is_some() {
+        drop(sc);
+        run.finish();
+    }
     let executed = run.acc.get("interleavings_executed");
     let expected = (scheds.len() * cfg_ids.len()) as u64;
     run.extra("forced_schedules_expected", json!(expected));
